@@ -107,14 +107,18 @@ theorem nextU32_view (r : BlockRng (Core 32)) :
       view32 (BlockRng.nextU32 blockCore32 r).2 = (Buf.next params32 (view32 r)).2 := by
   unfold BlockRng.nextU32 Buf.next BlockRng.generateAndSet view32 blockCore32
   simp only [RAND_SIZE]
-  split <;> exact ⟨rfl, rfl⟩
+  by_cases h : r.index ≥ 256
+  · simp only [h, if_true, and_self]
+  · simp only [h, if_false, and_self]
 
 theorem nextU64_view (r : BlockRng64 (Core 64)) :
     (BlockRng64.nextU64 blockCore64 r).1 = (Buf.next params64 (view64 r)).1 ∧
       view64 (BlockRng64.nextU64 blockCore64 r).2 = (Buf.next params64 (view64 r)).2 := by
   unfold BlockRng64.nextU64 Buf.next view64 blockCore64
   simp only [RAND_SIZE]
-  split <;> exact ⟨rfl, rfl⟩
+  by_cases h : r.index ≥ 256
+  · simp only [h, if_true, and_self]
+  · simp only [h, if_false, and_self]
 
 /-! ### one `Buf.next` is one `rand()` -/
 
@@ -139,11 +143,16 @@ theorem sync_next (hm : Match v p) (b : Buf w) (ctx : Jenkins.Ctx w) (h : Sync b
   subst hi hr hk
   unfold Buf.next Jenkins.rand1
   by_cases h0 : ctx.randcnt = 0
-  · have hge : 256 - ctx.randcnt ≥ 256 := by omega
-    simp only [h0, hge, if_true, generate_conc hm]
+  · simp only [h0, ge_iff_le, Nat.le_refl, if_true, generate_conc hm, Jenkins.RANDSIZ, Nat.reduceSub,
+      Nat.sub_zero]
+    generalize Jenkins.isaac v ctx = c1
     refine ⟨?_, ?_⟩
-    · exact rd_reverse _ 0 (by decide)
-    · exact ⟨by decide, rfl, rfl, rfl⟩
+    · exact rd_reverse _ 0 (Nat.zero_lt_succ 255)
+    · refine ⟨?_, ?_, ?_, ?_⟩
+      · exact Nat.le_succ 255
+      · simp only
+      · rfl
+      · rfl
   · have hlt : ¬ 256 - ctx.randcnt ≥ 256 := by omega
     simp only [h0, hlt, if_false]
     refine ⟨?_, ?_⟩
@@ -176,11 +185,17 @@ theorem fresh_next (hm : Match v p) (flag : Bool) (ctx : Jenkins.Ctx w) :
   unfold Buf.next Jenkins.rand1 Jenkins.randinit fresh
   have hge : (256 : Nat) ≥ 256 := Nat.le_refl _
   have hne : ¬ (Jenkins.RANDSIZ = 0) := by decide
-  simp only [hge, if_true, hne, if_false, generate_conc_any hm _ _ (Array.size_replicate ..)]
+  simp only [hge, if_true, hne, if_false, generate_conc_any hm _ _ (Array.size_replicate ..),
+    Jenkins.RANDSIZ, Nat.reduceSub]
+  generalize Jenkins.isaac v (Jenkins.randinitPre v flag ctx) = c1
   refine ⟨?_, ?_⟩
-  · rw [rd_reverse _ 0 (by decide)]
+  · rw [rd_reverse _ 0 (Nat.zero_lt_succ 255)]
     simp [Vector.getD]
-  · exact ⟨by decide, rfl, rfl, rfl⟩
+  · refine ⟨?_, ?_, ?_, ?_⟩
+    · exact Nat.le_succ 255
+    · simp only
+    · rfl
+    · rfl
 
 /-- the whole stream of a fresh wrapper is the reference stream after `randinit` -/
 theorem fresh_stream (hm : Match v p) (flag : Bool) (ctx : Jenkins.Ctx w) (k : Nat) :
